@@ -631,17 +631,62 @@ func (s *seqRun) postCrashProbe() string {
 	if f == nil || s.hist["create:ok"] != okc+1 {
 		return fmt.Sprintf("CREATE of a new name in the root fails: %s", trunc(last))
 	}
-	data := pat(0x5c, 5000)
+	// a file large enough to pick up blocks that recovery may wrongly consider free
+	data := make([]byte, 48*4096)
+	for i := range data {
+		data[i] = byte(0x5c + i/4096)
+	}
 	var wr nfstypes.WRITE3res
 	var rd nfstypes.READ3res
 	if !s.guarded("probe", func() {
-		wr = s.srv.NFSPROC3_WRITE(nfstypes.WRITE3args{File: mkfh3(f), Offset: 100, Count: 5000, Stable: nfstypes.FILE_SYNC, Data: data})
-		rd = s.srv.NFSPROC3_READ(nfstypes.READ3args{File: mkfh3(f), Offset: 100, Count: 5000})
+		wr = s.srv.NFSPROC3_WRITE(nfstypes.WRITE3args{File: mkfh3(f), Offset: 0, Count: nfstypes.Count3(len(data)), Stable: nfstypes.FILE_SYNC, Data: data})
+		rd = s.srv.NFSPROC3_READ(nfstypes.READ3args{File: mkfh3(f), Offset: 0, Count: nfstypes.Count3(len(data))})
 	}) {
 		return "WRITE/READ of a new file panics or hangs"
 	}
-	if wr.Status != nfstypes.NFS3_OK || rd.Status != nfstypes.NFS3_OK || !bytes.Equal(rd.Resok.Data, data) {
+	if wr.Status == nfstypes.NFS3ERR_NOSPC {
+		return "" // a full disk is a legitimate answer
+	}
+	if wr.Status != nfstypes.NFS3_OK || rd.Status != nfstypes.NFS3_OK || !bytes.Equal(rd.Resok.Data, data[:wr.Resok.Count]) {
 		return fmt.Sprintf("WRITE then READ of a new file: write status %d, read status %d, data equal %v", wr.Status, rd.Status, bytes.Equal(rd.Resok.Data, data))
+	}
+	written := data[:wr.Resok.Count]
+	// whatever the crash left half-done is resumed now: the numbers of half-freed objects are
+	// reused, and every file is touched (a size change to its own size finishes a pending shrink)
+	for _, hf := range halfFreed(s.srv.VerifFsState()) {
+		s.pokeInodeAlloc(hf)
+		s.mk("create", s.root(), fmt.Sprintf("reuse-%d", hf))
+	}
+	for _, fhh := range s.dumpFiles {
+		o := &objInfo{fh: fhh}
+		var ga nfstypes.GETATTR3res
+		if !s.guarded("probe getattr", func() { ga = s.srv.NFSPROC3_GETATTR(nfstypes.GETATTR3args{Object: mkfh3(o.fh)}) }) {
+			return "GETATTR of a recovered file panics or hangs"
+		}
+		if ga.Status != nfstypes.NFS3_OK {
+			continue
+		}
+		sz := uint64(ga.Resok.Obj_attributes.Size)
+		s.opSetattr(o.fh, &sz, timeHow{}, timeHow{})
+		if s.dead {
+			return "SETATTR of a recovered file to its own size panics or hangs: " + trunc(last)
+		}
+	}
+	s.waitIdle()
+	if !s.guarded("probe reread", func() {
+		rd = s.srv.NFSPROC3_READ(nfstypes.READ3args{File: mkfh3(f), Offset: 0, Count: nfstypes.Count3(len(written))})
+	}) {
+		return "READ of the new file panics or hangs"
+	}
+	if rd.Status != nfstypes.NFS3_OK || !bytes.Equal(rd.Resok.Data, written) {
+		bad := 0
+		for i := range written {
+			if i >= len(rd.Resok.Data) || rd.Resok.Data[i] != written[i] {
+				bad = i
+				break
+			}
+		}
+		return fmt.Sprintf("data written with FILE_SYNC after recovery is destroyed when the interrupted work is resumed: READ status %d, first differing byte at offset %d (block %d)", rd.Status, bad, bad/4096)
 	}
 	d := s.mk("mkdir", s.root(), "postcrash-dir")
 	if d == nil {
